@@ -23,7 +23,7 @@ CONFIGS = {
     "C11": {"quick": [("ControllerMC_share.cfg", "edges")],
             "thorough": [("ControllerMC_share.cfg", "edges"), ("ControllerMC_crash_sim.cfg", "sim")]},
 }
-SAMPLE = {"quick": 60000, "thorough": None}
+SAMPLE = {"quick": 25000, "thorough": None}
 SIM = {"num": 3000, "depth": 45}
 
 
